@@ -29,7 +29,7 @@ RULE = ('a case = one (operation list, setting) execution compared with the refe
 ASSUMPTIONS = ['tag state is reset in-process between settings (the simulator runs in a thread of the checking process)']
 REQUIRED = ['lists', 'settings', 'setting:synchronous', 'setting:pipelined', 'setting:bundled', 'setting:fragment', 'ops:read', 'ops:write', 'ops:failing', 'ops:attribute',
             'bundles:seen', 'bundles:multi-member', 'monitor:paths-in-bundle', 'ops:differing-route-paths', 'strings:parsed', 'strings:write-cast', 'strings:range', 'strings:offset',
-            'strings:numeric-path', 'paths:format-parse', 'monitor:model-compare', 'proxy:lists']
+            'strings:numeric-path', 'strings:text-values', 'paths:format-parse', 'monitor:model-compare', 'proxy:lists']
 TIMEOUT = {'quick': 300, 'thorough': 2400}
 SOFT = {'quick': 40, 'thorough': 900}
 
@@ -54,7 +54,8 @@ def print_op(spec):
         t += ' + %d' % spec['offset'] if spec.get('spaces') else '+%d' % spec['offset']
     if spec.get('write') is not None:
         typ, vals = spec['write']
-        txt = ', '.join(repr(v) if not isinstance(v, str) else '"%s"' % v for v in vals) if spec.get('spaces') else ','.join(repr(v) if not isinstance(v, str) else '"%s"' % v for v in vals)
+        q = lambda v: repr(v) if not isinstance(v, str) else '"%s"' % v.replace('"', '""')          # CSV quoting: a quote inside is doubled
+        txt = (', ' if spec.get('spaces') else ',').join(q(v) for v in vals)
         t += (' = ' if spec.get('spaces') else '=') + ('(%s)' % typ if typ else '') + txt
     return t
 
@@ -132,10 +133,23 @@ def gen_spec(rng, failing_ok=True):
 
 
 # ---------------------------------------------------------------- (c) strings
+STRING_VALUES = ['abc', 'a,b', 'C:\\plc\\new', '\\\\srv\\share', 'a\\tb', 'say "hi"', ' lead', 'x=1', 'a+b', '(INT)5', '1.5', 'tail\\', "it's", 'a[0-3]*2', 'é', '']
+
+
 def strings_part(ctx, rng, n):
     from cpppo.server.enip import client, device
-    for _ in range(n):
+    for k_ in range(n):
         kind, spec = gen_spec(rng)
+        if k_ % 8 == 0:
+            # text values: everything between the quotes is the value, character for character
+            cnt = rng.choice([1, 1, 2, 3])
+            vals = [rng.choice(STRING_VALUES) for _ in range(cnt)]
+            if all(v == '' for v in vals):
+                vals[0] = 'abc'
+            spec = {'tag': 'Txt', 'index': rng.randrange(4), 'spaces': rng.random() < 0.3, 'write': (rng.choice(['SSTRING', 'STRING']), vals)}
+            if cnt > 1:
+                spec['count'], spec['count_form'] = cnt, rng.choice(['range', 'star'])
+            ctx.count('strings:text-values')
         if rng.random() < 0.25 and spec.get('write') is None and spec.get('count') is not None:
             spec['offset'] = rng.choice([0, 4, 8, 40])
         text = print_op(spec)
